@@ -35,6 +35,8 @@ type FConn struct {
 	pauseAt        int64     // <0: never; otherwise writes block once this many bytes have been written ...
 	gate           chan struct{} // ... until Resume closes this
 	paused         atomic.Bool
+	cutWrites      int // <0: off; otherwise this many more Write calls go through, then the budget becomes cutExtra
+	cutExtra       int64
 }
 
 type timeoutErr struct{}
@@ -100,6 +102,14 @@ func (c *FConn) Write(p []byte) (int, error) {
 		}
 	}
 	c.mu.Lock()
+	if c.cutWrites >= 0 {
+		if c.cutWrites == 0 {
+			c.budget = c.cutExtra
+			c.cutWrites = -1
+		} else {
+			c.cutWrites--
+		}
+	}
 	if c.budget >= 0 {
 		if int64(len(p)) > c.budget {
 			n := c.budget
@@ -184,6 +194,16 @@ func (c *FConn) Resume() {
 	c.mu.Unlock()
 }
 
+// CutAfterWrites lets k more Write calls through (the teamserver's events are far smaller
+// than gorilla's write buffer, so one call is one websocket message), then extra bytes of
+// the following one, and fails every write after that.
+func (c *FConn) CutAfterWrites(k int, extra int) {
+	c.mu.Lock()
+	c.cutWrites = k
+	c.cutExtra = int64(extra)
+	c.mu.Unlock()
+}
+
 // Stall makes every later write block until the connection is killed.
 func (c *FConn) Stall() {
 	c.mu.Lock()
@@ -221,7 +241,7 @@ func (l *FListener) Accept() (net.Conn, error) {
 	if tc, ok := c.(*net.TCPConn); ok {
 		tc.SetNoDelay(true)
 	}
-	fc := &FConn{Conn: c, budget: -1, pauseAt: -1}
+	fc := &FConn{Conn: c, budget: -1, pauseAt: -1, cutWrites: -1}
 	l.mu.Lock()
 	l.conns[c.RemoteAddr().String()] = fc
 	l.mu.Unlock()
